@@ -11,13 +11,11 @@ import (
 
 // C20.zerolit: a math.Int / sdk.Dec left at its zero value holds a nil big.Int, and arithmetic on it panics. Every
 // composite literal of a module struct type that is built on a message, ValidateBasic, query or block tree therefore
-// assigns each of its number fields, or is one of the reviewed literals whose number fields are never read (closed
-// table). Literals that declare a variable (`x := T{...}`) are not distinguished by go/ssa from field-wise assignment
+// assigns each of its number fields, or is an empty record that is only returned beside a non-nil error (the
+// conventional "no result"), or one of the reviewed literals of a closed table (empty today). Literals that declare a variable (`x := T{...}`) are not distinguished by go/ssa from field-wise assignment
 // and are outside this rule; literals assigned to an existing variable are recognised by the zeroing store. A fallback record built for a "cannot happen" case
 // (`VestingType{Name: n}` when the type is missing) is the typical offender.
-var c20VettedZeroLit = map[string]string{
-	"Summary @ x/cfevesting/keeper.Keeper.createVestingsSummary": "the empty record returned beside an error: callers return the error and never read the amounts (the gRPC layer drops the response when the error is non-nil)",
-}
+var c20VettedZeroLit = map[string]string{}
 
 func zeroLitRule(w *World, r *Report, rule string, roots []*ssa.Function) {
 	reach := w.CG().Reach(roots)
@@ -78,9 +76,24 @@ func zeroLitRule(w *World, r *Report, rule string, roots []*ssa.Function) {
 					construct = fmt.Sprintf("%s #%d", construct, seen[key])
 				}
 				pos := w.Pos(al.Pos())
+				// an empty literal `&T{}` that is only ever returned beside a non-nil error is the conventional "no result"
+				emptyBesideError := len(set) == 0
+				if emptyBesideError {
+					for _, ref := range *al.Referrers() {
+						ret, isRet := ref.(*ssa.Return)
+						if _, isDbg := ref.(*ssa.DebugRef); isDbg {
+							continue
+						}
+						if !isRet || !FailsFrom(ret.Block()) {
+							emptyBesideError = false
+						}
+					}
+				}
 				switch {
 				case len(missing) == 0:
 					r.OK(rule, construct, pos, "every math.Int / sdk.Dec field is assigned")
+				case emptyBesideError:
+					r.OK(rule, construct, pos, "an empty record that is only returned beside a non-nil error")
 				case c20VettedZeroLit[key] != "":
 					r.Assume(rule, construct, pos, "vetted: "+c20VettedZeroLit[key])
 				default:
